@@ -151,3 +151,40 @@ pub fn top_len<P: Problem>(state: &State<P>) -> Option<usize> {
         .ok()
         .and_then(|p| p.get_current().map(|c| c.len()))
 }
+
+/// Result of one observed run: `Err(panic message)` if the run panicked, otherwise the run's own result.
+pub type RunResult<'a, P> = Result<Result<State<'a, P>, String>, String>;
+
+/// Runs `cfg` on `problem` with a seeded generator, the chosen evaluator and `obs` installed as the
+/// step observer. With `pool`, the run (and thus rayon's parallel evaluation) happens inside that pool.
+pub fn run_observed<'a, P>(
+    cfg: &mahf::Configuration<P>,
+    problem: &'a P,
+    seed: u64,
+    parallel: bool,
+    pool: Option<&rayon::ThreadPool>,
+    obs: impl FnMut(StepEvent<'_, P>, &P, &State<P>) + Send + 'a,
+) -> RunResult<'a, P>
+where
+    P: crate::problems::Instrumented,
+{
+    let go = move || {
+        crate::util::catch(move || {
+            cfg.optimize_with(problem, |state: &mut State<'a, P>| {
+                if parallel {
+                    state.insert_evaluator(mahf::problems::evaluate::Parallel::<P>::new());
+                } else {
+                    state.insert_evaluator(mahf::problems::evaluate::Sequential::<P>::new());
+                }
+                state.insert(mahf::state::Random::new(seed));
+                install(state, obs);
+                Ok(())
+            })
+            .map_err(|e| format!("{e:#}"))
+        })
+    };
+    match pool {
+        Some(p) => p.install(go),
+        None => go(),
+    }
+}
